@@ -134,10 +134,14 @@ def decode_performance(
         snote_ids = [n["id"] for n in snotes]
         snote_info = snotes
     else:
-        snote_info = snotes[np.isin(snotes["id"], snote_ids)]
+        # select the score notes in the order of snote_ids (the order of the
+        # rows of performance_array)
+        idx_by_id = dict((nid, i) for i, nid in enumerate(snotes["id"]))
+        snote_info = snotes[[idx_by_id[nid] for nid in snote_ids]]
 
     # sort
     sort_idx = np.lexsort((snote_info["pitch"], snote_info["onset_div"]))
+    snote_ids = [snote_ids[i] for i in sort_idx]
 
     onsets = snote_info["onset_beat"][sort_idx]
     durations = snote_info["duration_beat"][sort_idx]
